@@ -2,6 +2,7 @@ package c14
 
 import (
 	"fmt"
+	"runtime/debug"
 	"sort"
 	"strings"
 
@@ -32,7 +33,46 @@ const (
 	contOrdered = 0
 	contSimple  = 1
 	contMulti   = 2
+	// contIndet is the harness container with iterators of indeterminate
+	// length: Nodes, From and To return iterators whose Len is negative, which
+	// graph.Iterator allows ("the consuming function must be able to operate on
+	// the items of the iterator directly").
+	contIndet = 3
 )
+
+// indetNodes is a graph.Nodes of unknown length.
+type indetNodes struct {
+	ns []graph.Node
+	i  int
+}
+
+func (it *indetNodes) Next() bool {
+	if it.i < len(it.ns) {
+		it.i++
+		return true
+	}
+	it.i = len(it.ns) + 1
+	return false
+}
+
+func (it *indetNodes) Node() graph.Node {
+	if it.i < 1 || it.i > len(it.ns) {
+		return nil
+	}
+	return it.ns[it.i-1]
+}
+func (it *indetNodes) Len() int { return -1 }
+func (it *indetNodes) Reset()   { it.i = 0 }
+
+func (g *obase) iter(ns []graph.Node) graph.Nodes {
+	if g.indet {
+		return &indetNodes{ns: append([]graph.Node(nil), ns...)}
+	}
+	if len(ns) == 0 {
+		return graph.Empty
+	}
+	return iterator.NewOrderedNodes(append([]graph.Node(nil), ns...))
+}
 
 // M is the normalised model of a G: adjacency matrix, deduplicated edge list,
 // ID map. Self-loops, out-of-range and duplicate edges of the case are dropped
@@ -202,6 +242,7 @@ type obase struct {
 	from  [][]graph.Node // by index, iteration order of From
 	to    [][]graph.Node
 	w     func(u, v int) float64
+	indet bool
 }
 
 func (g *obase) Node(id int64) graph.Node {
@@ -211,19 +252,14 @@ func (g *obase) Node(id int64) graph.Node {
 	return nil
 }
 
-func (g *obase) Nodes() graph.Nodes {
-	if len(g.nodes) == 0 {
-		return graph.Empty
-	}
-	return iterator.NewOrderedNodes(append([]graph.Node(nil), g.nodes...))
-}
+func (g *obase) Nodes() graph.Nodes { return g.iter(g.nodes) }
 
 func (g *obase) From(id int64) graph.Nodes {
 	i, ok := g.m.idx[id]
-	if !ok || len(g.from[i]) == 0 {
+	if !ok {
 		return graph.Empty
 	}
-	return iterator.NewOrderedNodes(append([]graph.Node(nil), g.from[i]...))
+	return g.iter(g.from[i])
 }
 
 func (g *obase) HasEdgeBetween(x, y int64) bool {
@@ -283,10 +319,10 @@ func (g *odir) HasEdgeFromTo(u, v int64) bool {
 
 func (g *odir) To(id int64) graph.Nodes {
 	i, ok := g.m.idx[id]
-	if !ok || len(g.to[i]) == 0 {
+	if !ok {
 		return graph.Empty
 	}
-	return iterator.NewOrderedNodes(append([]graph.Node(nil), g.to[i]...))
+	return g.iter(g.to[i])
 }
 
 type oundir struct {
@@ -311,7 +347,7 @@ func (g *oundir) WeightedEdges() graph.WeightedEdges {
 
 func (m *M) newBase(salt uint64, w func(u, v int) float64) obase {
 	r := vk.NewSplitMix(m.c.Ord ^ salt ^ 0xabcdef)
-	g := obase{m: m, w: w}
+	g := obase{m: m, w: w, indet: m.c.Cont == contIndet}
 	for _, i := range r.Perm(m.n) {
 		g.nodes = append(g.nodes, onode(m.id[i]))
 	}
@@ -600,4 +636,87 @@ func exhG(dir bool, blocks []exhBlock, i int) G {
 		return c
 	}
 	panic("exhG: index out of range")
+}
+
+// ---- indeterminate iterators ------------------------------------------------------
+
+// indetRoutine names the routine a failure key belongs to (the key up to the
+// first assertion word), for the narrow keys of failures that only occur when
+// the graph's iterators report a negative Len.
+func indetRoutine(key string) string {
+	key = strings.TrimPrefix(key, "und-")
+	for _, p := range []string{"sortstab", "sort", "tarjan", "pathexists", "ispathin", "equal", "dircycles",
+		"lt", "slt", "intervals", "cc", "ucycles", "bk", "degeneracy", "kcore", "cliquegraph", "kclique",
+		"und-pathexists", "und-ispathin", "und-equal", "prim", "kruskal", "bfs", "dfs", "traverse",
+		"dsaturexact", "dsatur", "welshpowell", "sansegundo", "randomized", "rlf",
+		"cartesian", "tensor", "lexicographical", "strong", "conormal", "modularext", "modular"} {
+		if strings.HasPrefix(key, p+"-") || key == p {
+			return p
+		}
+	}
+	if i := strings.Index(key, "-"); i > 0 {
+		return key[:i]
+	}
+	return key
+}
+
+// withIndet runs check on g. For the indeterminate-length container the same
+// case is first checked on the ordinary harness container: a failure there is
+// reported as it is; a failure that only occurs with the negative Len gets the
+// key "<routine>-indeterminate-len".
+func withIndet(g G, check func(G) *vk.Failure) *vk.Failure {
+	if g.Cont != contIndet {
+		return check(g)
+	}
+	h := g
+	h.Cont = contOrdered
+	if f := check(h); f != nil {
+		return f
+	}
+	f, routine, text := indetGuard(func() *vk.Failure { return check(g) })
+	if routine != "" {
+		return vk.Failf(routine+"-indeterminate-len", "only with iterators whose Len() is negative (graph.Iterator allows that): the call panics: %s", text)
+	}
+	if f == nil {
+		return nil
+	}
+	return vk.Failf(indetRoutine(f.Key)+"-indeterminate-len", "only with iterators whose Len() is negative (graph.Iterator allows that): [%s] %s", f.Key, f.Msg)
+}
+
+// indetGuard runs f; a panic is attributed to the exported gonum function the
+// harness called (the outermost gonum frame below the harness frames).
+func indetGuard(f func() *vk.Failure) (fl *vk.Failure, routine, text string) {
+	defer func() {
+		r := recover()
+		if r == nil {
+			return
+		}
+		text = fmt.Sprint(r)
+		routine = "unknown"
+		for _, line := range strings.Split(string(debug.Stack()), "\n") {
+			if strings.HasPrefix(line, "verifharness/c14.") && routine != "unknown" {
+				break
+			}
+			if strings.HasPrefix(line, "gonum.org/v1/gonum/graph/") {
+				name := line[strings.LastIndex(line, "/")+1:]
+				if i := strings.Index(name, "("); i >= 0 {
+					if j := strings.LastIndex(name[:i], "."); j >= 0 && !strings.Contains(name[:i], ".(") {
+						name = name[j+1 : i]
+					} else {
+						continue // a method or closure: keep looking for the exported entry point
+					}
+				}
+				if name != "" && name[0] >= 'A' && name[0] <= 'Z' {
+					routine = strings.ToLower(name)
+				}
+			}
+		}
+		if alias, ok := map[string]string{"recursivelargestfirst": "rlf", "dominators": "lt", "dominatorsslt": "slt",
+			"directedcyclesin": "dircycles", "undirectedcyclesin": "ucycles", "bronkerbosch": "bk",
+			"connectedcomponents": "cc", "degeneracyordering": "degeneracy", "kcliquecommunities": "kclique",
+			"tarjanscc": "tarjan", "sortstabilized": "sortstab", "pathexistsin": "pathexists"}[routine]; ok {
+			routine = alias
+		}
+	}()
+	return f(), "", ""
 }
